@@ -257,7 +257,7 @@ func resolveSched(c *an.Ctx, rule string) *sched {
 // isToCall reports whether v is the list of dependencies of a stage: a call
 // of ExecutionGraph.To or a lookup in the `to` field.
 func isToCall(v ssa.Value) bool {
-	for _, r := range an.ResolveAll(v) {
+	for _, r := range an.Sources(v) {
 		switch x := r.(type) {
 		case *ssa.Call:
 			if _, ok := an.IsCallTo(x, fnGraphTo); ok {
